@@ -182,6 +182,14 @@ Theorem C03_open_perm : forall (P : Type) (empty : P) m l l' (d : list (file P))
 Proof. exact @open_perm. Qed.
 Print Assumptions C03_open_perm.
 
+(** The same at the level of [_open]: the files themselves in any order (sorting by
+    [patch_index] with the distinctness the chain check enforces is order-independent). *)
+Theorem C03_open_files_perm : forall (P : Type) (empty : P) m (sel sel' oth d : list (file P)) u,
+  Permutation sel sel' ->
+  open_existing empty m sel oth d u = open_existing empty m sel' oth d u.
+Proof. exact @open_existing_perm. Qed.
+Print Assumptions C03_open_files_perm.
+
 (** The hypothesis [wf] of the reopen theorems holds for every handle opened by name in a
     directory of standard file names, and after any sequence of steps with fresh ids. *)
 Theorem C03_wf_open : forall (P : Type) (empty : P) m n (d : list (file P)) r u s,
